@@ -286,13 +286,25 @@ func (g *GoBackend) renderByTemplate(scope *Scope, executeTpl *template.Template
 	if err != nil {
 		return fmt.Errorf("%s: %w", filename, err)
 	}
+	content := w.String()
 	g.res.Contents = append(g.res.Contents, &plugin.Generated{
-		Content: w.String(),
+		Content: content,
 		Name:    &filename,
 	})
 	imports, err := scope.ResolveImports()
 	if err != nil {
 		return err
+	}
+	// The imports of included IDLs are decided on the IDL level (every include the IDL refers to), but
+	// go rejects an import the code does not mention, e.g. `const b.T C = 1` renders as `C = 1`.
+	for pth, alias := range imports {
+		name := alias
+		if name == "" {
+			name = pth[strings.LastIndex(pth, "/")+1:]
+		}
+		if !mentionsPackage(content, name) {
+			delete(imports, pth)
+		}
 	}
 	w.Reset()
 	err = executeTpl.ExecuteTemplate(w, "Imports", imports)
@@ -305,6 +317,23 @@ func (g *GoBackend) renderByTemplate(scope *Scope, executeTpl *template.Template
 		InsertionPoint: &point,
 	})
 	return nil
+}
+
+// mentionsPackage reports whether code contains a qualified identifier `name.X`.
+// It may say yes for a comment or a literal; it never says no for a package that is used.
+func mentionsPackage(code, name string) bool {
+	for i := 0; ; {
+		j := strings.Index(code[i:], name+".")
+		if j < 0 {
+			return false
+		}
+		i += j
+		if i == 0 || !(code[i-1] == '_' || code[i-1] >= '0' && code[i-1] <= '9' ||
+			code[i-1] >= 'a' && code[i-1] <= 'z' || code[i-1] >= 'A' && code[i-1] <= 'Z' || code[i-1] >= 0x80) {
+			return true
+		}
+		i += len(name)
+	}
 }
 
 func (g *GoBackend) buildResponse() *plugin.Response {
